@@ -103,7 +103,7 @@ from hippolyzer.lib.base.network.transport import Direction
 from hippolyzer.lib.base.settings import Settings
 from hippolyzer.lib.proxy.circuit import ProxiedCircuit
 
-from hmc import explore, refwire, vloop
+from hmc import explore, refwire, statehash, vloop
 from hmc.core import Run
 
 LEVEL = "model_checking"
@@ -525,8 +525,8 @@ class Harness:
     def canon(self, w: World):
         c = w.circuit
         w.loop.set_time(w.now / 10.0)
-        trackers = tuple((tuple(t.injections), t._injection_base, t._packet_id_base, tuple(t.dropped))
-                         for t in (c.out_injections, c.in_injections))
+        # whole tracker state via vars(): no private field is named, so internal renames / container swaps do not matter
+        trackers = tuple(statehash.obj_state(t) for t in (c.out_injections, c.in_injections))
         unacked = []
         for (d, pid), info in c.unacked_reliable.items():
             age = info.last_resent - circuit_mod.dt.datetime.now()
